@@ -39,4 +39,6 @@ PartitionFails(ev) ==
 \cup (IF \A i \in 1..Len(ev.lazy) : BlockOK(ev.members, ev.chunks, ev.lazy[i]) THEN {} ELSE {"lazy_members"})
 \cup (IF \A i \in 1..Len(ev.eager) : SlicesOK(ev.chunks, ev.eager[i]) THEN {} ELSE {"slices"})
 \cup (IF ev.product_ok THEN {} ELSE {"block_is_not_a_product_of_its_axes"})
+\* growth (GraphNames.tla): a task key of this object's lazy blocks also names a task with another payload in the sibling's graph
+\cup (IF ev.names_shared THEN {"growth_distinct_objects_share_task_names"} ELSE {})
 =============================================================================
